@@ -145,6 +145,7 @@ func c10Sequence(c *Ctx, kind string, keys []string, seqIdx int) {
 	}
 	defer inst.Close()
 	r := newRunner(c, inst, false, false, false)
+	r.EnableFsTrack()
 	buckets := []string{"bk1", "bk2", "bk3"}
 	if inst.IsSingle() {
 		buckets = []string{impl.SingleBucketName}
@@ -176,15 +177,9 @@ func c10Sequence(c *Ctx, kind string, keys []string, seqIdx int) {
 		}
 	}
 	for _, b := range buckets {
-		if inst.IsFs() {
-			r.tell("fsmk " + hx(b))
-		}
 		for _, k := range []string{"k", "secret", "dir/file"} {
 			l, o := r.Put(b, k, nil, []byte("orig:"+b+"/"+k))
 			judge(l, o, "setup")
-			if inst.IsFs() {
-				r.tell(fmt.Sprintf("fsput %s %s %s", hx(b), hx(k), drv.Hex([]byte("orig:"+b+"/"+k))))
-			}
 		}
 	}
 	// deterministic (first sequences of every backend): sibling keys that differ only in '/', '_' (and
@@ -207,9 +202,6 @@ func c10Sequence(c *Ctx, kind string, keys []string, seqIdx int) {
 					return
 				}
 				judge(line, obs, "sibling-put")
-				if inst.IsFs() && strings.HasPrefix(obs, "stored") {
-					r.tell(fmt.Sprintf("fsput %s %s %s", hx(b), hx(k), drv.Hex([]byte(fmt.Sprintf("sib:%s:%d", k, round)))))
-				}
 				// the metadata of every sibling is its own
 				for _, k2 := range sibs {
 					_, g := r.Get(b, k2)
@@ -230,9 +222,6 @@ func c10Sequence(c *Ctx, kind string, keys []string, seqIdx int) {
 			return
 		}
 		judge(line, obs, "sibling-del")
-		if inst.IsFs() && strings.HasPrefix(obs, "deleted") {
-			r.tell(fmt.Sprintf("fsdel %s %s", hx(b), hx(sibs[1])))
-		}
 		_, g := r.Get(b, sibs[0])
 		if !strings.Contains(g, hx("X-Amz-Meta-Sib")+"="+hx(sibs[0])) {
 			c.mismatch(Mismatch{Kind: "spec", Backend: kind, Case: append(append([]string{}, r.Lines...), line), Impl: trunc(g, 200),
@@ -247,7 +236,6 @@ func c10Sequence(c *Ctx, kind string, keys []string, seqIdx int) {
 		before := takeSnap(r, buckets)
 		addr := map[string]bool{b + "\x00" + k: true}
 		bucketOp := ""
-		k2ForTree := ""
 		var line, obs, opName string
 		switch x := c.Rng.Intn(14); {
 		case x < 5:
@@ -265,7 +253,6 @@ func c10Sequence(c *Ctx, kind string, keys []string, seqIdx int) {
 		case x < 11:
 			opName = "multi-delete"
 			k2 := keys[c.Rng.Intn(len(keys))]
-			k2ForTree = k2
 			addr[b+"\x00"+k2] = true
 			line, obs = r.DelMulti(b, []ObjID{{Key: k}, {Key: k2}})
 		case x < 12:
@@ -330,9 +317,7 @@ func c10Sequence(c *Ctx, kind string, keys []string, seqIdx int) {
 		}
 		if inst.IsFs() {
 			c.hist(fmt.Sprintf("fs:%s:refused=%v", opName, refused))
-			if bad := c10FsTree(c, r, inst, opName, b, k, k2ForTree, i, obs); bad != "" {
-				c.mismatch(Mismatch{Kind: "model", Backend: kind, Case: append(append([]string{}, r.Lines...), line), Impl: bad,
-					Model: "the directory tree of the fs model (Model/FsTree)", Finger: "c10:fs-tree:" + opName})
+			if r.fsBad {
 				return
 			}
 		} else if bucketOp == "" || (bucketOp != "_meta") {
@@ -366,97 +351,3 @@ func c10KeyClass(k string) string {
 	return "plain"
 }
 
-// c10FsTree keeps the Lean model of the bucket's directory tree (Model/FsTree: validKey,
-// checkKeyConflict, MkdirAll, the pruning loop) in step with the fs backend and compares, after
-// every put / delete / multi-delete / copy, (a) whether the key was refused and (b) the
-// directories and files actually present under the bucket with the model's tree.
-func c10FsTree(c *Ctx, r *Runner, inst *impl.Instance, opName, b, k, k2 string, i int, obs string) string {
-	ask := func(line string) string {
-		m, _, err := c.D.Ask(line)
-		if err != nil {
-			panic(err)
-		}
-		return m
-	}
-	refusedImpl := strings.HasPrefix(obs, "err InvalidArgument")
-	switch opName {
-	case "put":
-		switch {
-		case strings.HasPrefix(obs, "stored"):
-			if m := ask(fmt.Sprintf("fsput %s %s %s", hx(b), hx(k), drv.Hex([]byte(fmt.Sprintf("new:%d", i))))); m == "refused" {
-				return fmt.Sprintf("PUT %q: implementation %s, the model refuses the key", k, obs)
-			}
-		case refusedImpl:
-			if m := ask(fmt.Sprintf("fscheck %s %s", hx(b), hx(k))); m == "ok" {
-				return fmt.Sprintf("PUT %q: implementation %s, the model accepts the key", k, obs)
-			}
-		}
-		// any other error (key too long for the HTTP layer, a file name the OS refuses): nothing
-		// may have changed; the tree comparison below says whether that is so
-	case "delete":
-		switch {
-		case strings.HasPrefix(obs, "deleted"):
-			if m := ask(fmt.Sprintf("fsdel %s %s", hx(b), hx(k))); m == "refused" {
-				return fmt.Sprintf("DELETE %q: implementation %s, the model refuses the key", k, obs)
-			}
-		case refusedImpl:
-			if m := ask(fmt.Sprintf("fscheck %s %s", hx(b), hx(k))); m == "ok" {
-				// a valid key: the model would have deleted it
-				return fmt.Sprintf("DELETE %q: implementation %s, the model takes the key as valid", k, obs)
-			}
-		}
-	case "multi-delete":
-		// each named key is deleted; invalid keys are reported per key, not as a request error
-		if strings.HasPrefix(obs, "multideleted") || strings.HasPrefix(obs, "multi") {
-			for _, kk := range []string{k, k2} {
-				ask(fmt.Sprintf("fsdel %s %s", hx(b), hx(kk)))
-			}
-		}
-	case "copy":
-		if strings.HasPrefix(obs, "copied") {
-			// the source is <some bucket>/secret: its bytes are what GET returns
-			_, g := r.Get(b, k)
-			f := strings.Fields(g)
-			if len(f) >= 2 && f[0] == "obj" {
-				if m := ask(fmt.Sprintf("fsput %s %s %s", hx(b), hx(k), f[1])); m == "refused" {
-					return fmt.Sprintf("COPY to %q accepted, the model refuses the key", k)
-				}
-			}
-		}
-	default:
-		return ""
-	}
-	c.R.Evaluations++
-	dirs, files, err := inst.BucketTree(b)
-	if err != nil {
-		return ""
-	}
-	m := ask("fstree " + hx(b))
-	if !strings.HasPrefix(m, "tree ") {
-		return ""
-	}
-	var md, mf []string
-	for _, part := range strings.Fields(m)[1:] {
-		kind, list := part[:2], part[2:]
-		if list == "-" {
-			continue
-		}
-		for _, e := range strings.Split(list, ",") {
-			if kind == "D=" {
-				d, _ := hexDecode(e)
-				md = append(md, d)
-			} else {
-				p := strings.SplitN(e, ":", 2)
-				d, _ := hexDecode(p[0])
-				mf = append(mf, d)
-			}
-		}
-	}
-	sort.Strings(md)
-	sort.Strings(mf)
-	fl := files
-	if strings.Join(dirs, "\x00") != strings.Join(md, "\x00") || strings.Join(fl, "\x00") != strings.Join(mf, "\x00") {
-		return fmt.Sprintf("after %s %q the bucket holds dirs %q files %q; the model's tree has dirs %q files %q", opName, k, dirs, fl, md, mf)
-	}
-	return ""
-}
